@@ -190,6 +190,8 @@ pub struct RoleCfg {
     /// context operations performed in every `started`
     pub started_actions: Vec<Action>,
     pub stopped_yields: u8,
+    /// virtual time `stopped()` takes
+    pub stopped_sleep: u32,
     pub stopped_panic: bool,
     /// per message id
     pub work: Vec<(u32, Work)>,
@@ -208,6 +210,7 @@ impl Default for RoleCfg {
             started_sleep: 0,
             started_actions: vec![],
             stopped_yields: 0,
+            stopped_sleep: 0,
             stopped_panic: false,
             work: vec![],
             default_work: Work::default(),
@@ -727,14 +730,17 @@ impl<const K: u8> Actor for Probe<K> {
     }
 
     async fn stopped(&mut self, _ctx: &mut Context<Self>) {
-        let (yields, panic) = W.with(|w| {
+        let (yields, panic, stop_sleep) = W.with(|w| {
             let w = w.borrow();
             let rc = &w.roles[self.role as usize];
-            (rc.stopped_yields, rc.stopped_panic)
+            (rc.stopped_yields, rc.stopped_panic, rc.stopped_sleep)
         });
         self.enter(Cb::Stopped);
         for _ in 0..yields {
             vexec::yield_now().await;
+        }
+        if stop_sleep > 0 {
+            sleep(stop_sleep).await;
         }
         if panic {
             std::panic::panic_any(Injected);
